@@ -461,10 +461,18 @@ def gen_history(rng):
         if hi <= lo:
             continue
         i = rng.randrange(lo, hi)
-        op = rng.choice(["replace", "replace", "reident"])
+        op = rng.choice(["replace", "replace", "reident", "delident", "delident", "delname"])
         e = {"scope": sc, "op": op, "index": i, "add": _collider(rng, inp[sc][i]["name"])}
         if op == "reident":
             e["ident"] = "moved_" + str(rng.randint(0, 9))
+        if op in ("delident", "delname"):
+            # the element gets another name; its identifier (resp. name) is deleted with `del`; the new
+            # sibling takes the freed identifier (a name that sanitises to it) resp. the freed name itself
+            e["moved"] = "moved." + str(rng.randint(0, 9)) + rng.choice(["", "x", "Y"])
+            if op == "delname":
+                e["add"] = inp[sc][i]["name"]
+            elif rng.random() < 0.5:
+                e["add"] = inp[sc][i]["ident"]
         edits.append(e)
     inp["edits"] = edits
     return inp
@@ -481,7 +489,7 @@ def gen_transform(rng):
         shared += rng.choice(HIST_SPECIAL) + rng.choice(["0", "x", "Lo"])
     if rng.random() < 0.2:
         shared = shared.upper()
-    return {"level": "transform", "op": rng.choice(["uniquify", "uniquify", "flatten", "clone_add"]),
+    return {"level": "transform", "op": rng.choice(["uniquify", "uniquify", "flatten", "clone_add", "flatten_twice", "flatten_twice"]),
             "shared": shared, "offsets": sorted(rng.sample(range(0, 6), rng.randint(1, 4))),
             "sib_case": rng.choice(["lower", "lower", "upper", "swap"]), "n_inst": rng.randint(2, 3)}
 
@@ -1318,8 +1326,14 @@ class Runner:
                             home2.remove_definition(old)
                         else:
                             n2.remove_library(old)
-                    else:
+                    elif e["op"] == "reident":
                         old["EDIF.identifier"] = e["ident"]
+                    elif e["op"] == "delident":
+                        old.name = e["moved"]
+                        del old["EDIF.identifier"]
+                    else:
+                        del old[".NAME"]
+                        old.name = e["moved"]
                     if sc == "instances":
                         top2.create_child(name=e["add"], reference=leaf2)
                     elif sc == "cables":
@@ -1468,6 +1482,27 @@ class Runner:
                 if op == "uniquify":
                     uq.uniquify(nl)
                 elif op == "flatten":
+                    flatten(nl)
+                elif op == "flatten_twice":
+                    # flatten, add more hierarchy (a new block with inner nets, instantiated in the flat top),
+                    # export (the new elements get identifiers), uniquify, flatten again
+                    sub.create_cable(name="n/2").create_wire()
+                    uq.uniquify(nl)
+                    flatten(nl)
+                    for b in range(inp.get("n_inst", 2)):
+                        mid = work.create_definition(name="%s_blk%d" % (inp["shared"], b))
+                        mp = mid.create_port(name="P")
+                        mp.direction = sdn.IN
+                        mp.create_pins(1)
+                        mu = mid.create_child(name="U", reference=leaf)
+                        w1 = mid.create_cable(name="w/1")
+                        w1.create_wire()
+                        w1.wires[0].connect_pin(mp.pins[0])
+                        w1.wires[0].connect_pin(mu.pins[lp.pins[0]])
+                        mid.create_cable(name="w/2").create_wire()
+                        top.create_child(name="blk%d" % b, reference=mid)
+                    sdn.compose(nl, os.path.join(d, "m.edf"))
+                    uq.uniquify(nl)
                     flatten(nl)
                 else:
                     c = sub.clone()
